@@ -15,8 +15,8 @@ def OpOK : Op → Prop
   | .clearProtos new => ∀ a ∈ new, AreaOK a ∧ a.kind = .region
   | _ => True
 
-theorem Inv.peek {L : Live} {ever : List AreaT} {r r' : Rec} (h : Inv L ever r) (e : CoreEq r r') (c : InvCache r') :
-    Inv L (ever ++ []) r' := by
+theorem Inv.peek {S : Prop} {L : Live} {ever : List AreaT} {r r' : Rec} (h : Inv S L ever r) (e : CoreEq r r') (c : InvCache r') :
+    Inv S L (ever ++ []) r' := by
   rw [List.append_nil]; exact ⟨h.core.congr e, c⟩
 
 theorem getByName_ok {r r' : Rec} {gid : Nat} (h : getByName r gid = .ok r') :
@@ -33,8 +33,8 @@ theorem getByName_ok {r r' : Rec} {gid : Nat} (h : getByName r gid = .ok r') :
     have hi : i = gid := by simpa using List.find?_some hf
     exact ⟨g, by rw [hi], h.symm⟩
 
-theorem Inv.step {L : Live} {ever : List AreaT} {r r' : Rec} (h : Inv L ever r) (op : Op) (hop : OpOK op)
-    (hstep : Lookup.step r op = .ok r') : Inv (L.step op) (ever ++ opAreas op) r' := by
+theorem Inv.step {S : Prop} {L : Live} {ever : List AreaT} {r r' : Rec} (h : Inv S L ever r) (op : Op) (hop : OpOK op)
+    (hstep : Lookup.step r op = .ok r') : Inv S (L.step op) (ever ++ opAreas op) r' := by
   cases op with
   | cds g => simpa [opAreas] using h.addCds g hop hstep
   | area a => exact h.addArea a hop hstep
@@ -63,7 +63,7 @@ theorem Inv.step {L : Live} {ever : List AreaT} {r r' : Rec} (h : Inv L ever r) 
   | peekCds =>
     simp only [Lookup.step, pure, Except.pure] at hstep
     injection hstep with hstep; subst hstep
-    obtain ⟨e, c, _⟩ := InvCore.peekCds (L := L) (ever := ever) h.cache
+    obtain ⟨e, c, _⟩ := InvCore.peekCds (S := S) (L := L) (ever := ever) h.cache
     exact h.peek e c
   | peekArea aid =>
     simp only [Lookup.step, pure, Except.pure] at hstep
@@ -98,8 +98,8 @@ theorem liveAfter_append (ops : List Op) (op : Op) : liveAfter (ops ++ [op]) = (
 theorem opsAreas_append (ops : List Op) (op : Op) : opsAreas (ops ++ [op]) = opsAreas ops ++ opAreas op := by
   simp [opsAreas]
 
-theorem foldlM_inv : ∀ (ops seen : List Op) (r0 r : Rec), Inv (liveAfter seen) (opsAreas seen) r0 → (∀ op ∈ ops, OpOK op) →
-    ops.foldlM step r0 = .ok r → Inv (liveAfter (seen ++ ops)) (opsAreas (seen ++ ops)) r
+theorem foldlM_inv : ∀ (ops seen : List Op) (r0 r : Rec), Inv S (liveAfter seen) (opsAreas seen) r0 → (∀ op ∈ ops, OpOK op) →
+    ops.foldlM step r0 = .ok r → Inv S (liveAfter (seen ++ ops)) (opsAreas (seen ++ ops)) r
   | [], seen, r0, r, h, _, hrun => by
     simp only [List.foldlM_nil, pure, Except.pure] at hrun
     injection hrun with hrun
@@ -118,8 +118,55 @@ theorem foldlM_inv : ∀ (ops seen : List Op) (r0 r : Rec), Inv (liveAfter seen)
 
 /-- every successful history ends in a state satisfying the invariant -/
 theorem run_inv {len : Int} {ops : List Op} {r : Rec} (hok : ∀ op ∈ ops, OpOK op) (hrun : run len ops = .ok r) :
-    Inv (liveAfter ops) (opsAreas ops) r := by
-  have := foldlM_inv ops [] { len := len } r (by simpa [liveAfter, opsAreas] using Inv.init len) hok hrun
+    Inv True (liveAfter ops) (opsAreas ops) r := by
+  have := foldlM_inv ops [] { len := len } r (by simpa [liveAfter, opsAreas] using Inv.init True len) hok hrun
+  simpa using this
+
+/-! ### histories in which genes are re-annotated at any time (`runLoose`) -/
+
+theorem Inv.stepLoose {L : Live} {ever : List AreaT} {r r' : Rec} (h : Inv False L ever r) (op : Op) (hop : OpOK op)
+    (hstep : Lookup.stepLoose r op = .ok r') : Inv False (L.step op) (ever ++ opAreas op) r' := by
+  cases op with
+  | setCores gid cs =>
+    simp only [Lookup.stepLoose, pure, Except.pure] at hstep
+    injection hstep with hstep; subst hstep
+    simpa [opAreas] using h.rewriteCores gid cs (fun hf => hf.elim)
+  | cds g => exact h.step _ hop hstep
+  | area a => exact h.step _ hop hstep
+  | clearRegions => exact h.step _ hop hstep
+  | clearSubs new => exact h.step _ hop hstep
+  | clearCands new => exact h.step _ hop hstep
+  | clearProtos new => exact h.step _ hop hstep
+  | peekCds => exact h.step _ hop hstep
+  | peekArea aid => exact h.step _ hop hstep
+  | byName gid => exact h.step _ hop hstep
+  | withinRegions => exact h.step _ hop hstep
+  | hasCds aid gid => exact h.step _ hop hstep
+  | indexOf aid gid => exact h.step _ hop hstep
+
+theorem foldlM_invLoose : ∀ (ops seen : List Op) (r0 r : Rec), Inv False (liveAfter seen) (opsAreas seen) r0 →
+    (∀ op ∈ ops, OpOK op) → ops.foldlM stepLoose r0 = .ok r → Inv False (liveAfter (seen ++ ops)) (opsAreas (seen ++ ops)) r
+  | [], seen, r0, r, h, _, hrun => by
+    simp only [List.foldlM_nil, pure, Except.pure] at hrun
+    injection hrun with hrun
+    subst hrun
+    simpa using h
+  | op :: ops, seen, r0, r, h, hok, hrun => by
+    simp only [List.foldlM_cons, bind, Except.bind] at hrun
+    cases hs : stepLoose r0 op with
+    | error e => rw [hs] at hrun; cases hrun
+    | ok r1 =>
+      rw [hs] at hrun
+      have h1 := h.stepLoose op (hok op (by simp)) hs
+      rw [← liveAfter_append, ← opsAreas_append] at h1
+      have := foldlM_invLoose ops (seen ++ [op]) r1 r h1 (fun o ho => hok o (by simp [ho])) hrun
+      simpa using this
+
+/-- every successful history with annotation rewrites at any time satisfies the invariant except for its
+    definition-set part -/
+theorem runLoose_inv {len : Int} {ops : List Op} {r : Rec} (hok : ∀ op ∈ ops, OpOK op) (hrun : runLoose len ops = .ok r) :
+    Inv False (liveAfter ops) (opsAreas ops) r := by
+  have := foldlM_invLoose ops [] { len := len } r (by simpa [liveAfter, opsAreas] using Inv.init False len) hok hrun
   simpa using this
 
 end ASV.Lookup
